@@ -128,7 +128,7 @@ def cases(c):
                 k = int(rng.integers(lo, hi + 1))
             out.append({'cls': cls, 'cplx': cplx, 'N': N, 'NFFT': kind, 'fs': gen.pick(rng, [1.0, 2.0, 1000.0, 0.05]),
                         'k': k, 'params': params, 'amp10': int(gen.pick(rng, [0, 0, 0, -3, -7, 4])), 'i': i, 'directed': i < 4,
-                        'reuse': ((i // 3) % 4) if i % 3 == 1 else None})
+                        'reuse': ((i // 6) % 4) if i % 3 == 1 else None})       # i // 6: every salt meets both parities of i (real and complex)
             if cls in ('pcovar', 'pmodcovar') and (i // 2) % 2 == 0:
                 # the least-squares estimators are exact on a noiseless tone: nearly noiseless records (noise 1e-9)
                 # separate them from a recursion that breaks down when the prediction error vanishes
